@@ -9,8 +9,8 @@ DEMOSRC=$(ls demo.c 2>/dev/null)
 CC="cc -I. -Ilib -DHAVE_CONFIG_H demo.c .libs/libcrypt.a -o demo"
 grep -q "wrap=" notes.md 2>/dev/null && CC="$CC $(grep -o '\-Wl,--wrap=[a-z_]*' notes.md | sort -u | tr '\n' ' ')"
 make -j8 > /dev/null 2>&1; eval $CC 2>/dev/null || cc -I. demo.c .libs/libcrypt.a -o demo; ./demo > /tmp/demo_with.txt 2>&1; RC_WITH=$?
-git stash -q -- lib; make -j8 > /dev/null 2>&1; eval $CC 2>/dev/null || cc -I. demo.c .libs/libcrypt.a -o demo; ./demo > /tmp/demo_without.txt 2>&1; RC_WITHOUT=$?
-git stash pop -q; make -j8 > /dev/null 2>&1
+git apply -R patch.diff; make -j8 > /dev/null 2>&1; eval $CC 2>/dev/null || cc -I. demo.c .libs/libcrypt.a -o demo; ./demo > /tmp/demo_without.txt 2>&1; RC_WITHOUT=$?
+git apply patch.diff; make -j8 > /dev/null 2>&1
 echo "demo rc with change=$RC_WITH without=$RC_WITHOUT"
 mkdir -p /verif/seeded/$ID
 cp patch.diff /verif/seeded/$ID/patch.diff; cp demo.c /verif/seeded/$ID/ 2>/dev/null; cp notes.md /verif/seeded/$ID/agent_notes.md 2>/dev/null
